@@ -1035,6 +1035,41 @@ func statsRace(m *meta, rng *rand.Rand, round int) {
 	m.count("stats_race_rounds")
 }
 
+// staleAfterDeleteProbe (C02, deterministic): Set(k,1) and Delete(k) have completed; a re-inserting Set(k,2) is parked
+// between publish's two stores; a Get that runs entirely inside that window may miss or see 2, never the deleted 1.
+func staleAfterDeleteProbe(m *meta) {
+	for _, gap := range []int{221, 222} {
+		c, err := kioshun.New[int, int](kioshun.Config{MaxSize: 64, ShardCount: 1, EvictionPolicy: kioshun.SieveTinyLFU})
+		must(err)
+		const k = 5
+		c.Set(k, 1, kioshun.NoExpiration)
+		c.Delete(k)
+		ctx := fmt.Sprintf("stale-after-delete probe (writer parked at %d)", gap)
+		watch(ctx)
+		kioshun.VerifSchedReset(true, 300*time.Millisecond)
+		kioshun.VerifSchedSpawn(2, func() { c.Set(k, 2, kioshun.NoExpiration) })
+		if p := stepUntil(2, gap); p != gap {
+			m.count("stale_probe_setup_failed")
+			stepUntil(2, -100)
+		} else {
+			v, ok := c.Get(k)
+			if ok && v == 1 {
+				for _, p := range []string{"C02", "C12"} {
+					m.violate(p, fmt.Sprintf("%s: Set(k,1) and Delete(k)=true had completed, Set(k,2) is in flight: Get(k) returned the deleted value 1", ctx), ctx)
+				}
+			}
+			stepUntil(2, -100)
+			if v2, ok2 := c.Get(k); !ok2 || v2 != 2 {
+				m.violate("C02", fmt.Sprintf("%s: after Set(k,2) returned Get(k)=(%d,%v)", ctx, v2, ok2), ctx)
+			}
+		}
+		kioshun.VerifSchedReset(false, 0)
+		unwatch()
+		c.Close()
+	}
+	m.count("stale_after_delete_probes")
+}
+
 // flickerProbe replays the schedule of C02.v's c02_atomic_refuted on the real cache through the yield hooks:
 // a reader parked after loading a matching tag, the key deleted and re-inserted into the same slot, the
 // writer parked between publish's item store and tag store. Finding F10 when it reproduces.
@@ -1378,6 +1413,7 @@ func streamConc(o opts) {
 		}
 	}
 	flickerProbe(m)
+	staleAfterDeleteProbe(m)
 	listenerCloseProbe(m)
 	closeDrainNotifyProbe(m)
 	w.Close()
